@@ -24,14 +24,15 @@ Open Scope N_scope.
 (* join-request of a known device with the correct MIC: Success; the device decrypts the join-accept and
    accepts its MIC; DevAddr / DLSettings / RxDelay / CFList are the requested ones, JoinNonce the
    configured one, NetID the sender's; every session key, unwrapped with the configured KEK, is the
-   key the device derives (1.0 or 1.1 derivation by OptNeg) *)
-Theorem C16_join_usable : forall cfg r d dn netid devaddr dls rxd cf jn nskek aslabel askek,
+   key the device derives (1.0 or 1.1 derivation by OptNeg).  ReceiverID only has to be an EUI64 text
+   [rid]: the JoinEUI of the MIC-validated join-request is the one used (audit finding 3, repaired) *)
+Theorem C16_join_usable : forall cfg r d dn netid rid devaddr dls rxd cf jn nskek aslabel askek,
   wf_device d -> dn < 65536 -> jn < 16777216 ->
   length netid = 3%nat -> bytes netid -> length devaddr = 4%nat -> bytes devaddr ->
   dls < 256 -> rxd < 16 -> bytes cf -> cf_canonical cf ->
   r_mtype r = s_JoinReq -> base_decode r = Ok tt ->
   typed_decode r = Ok (mkTReq (join_request_frame d dn) (d_deveui d) devaddr (dec_dlsettings dls) (Z.of_N rxd) cf) ->
-  unmarshal_text 3 (r_sender r) = Ok netid -> unmarshal_text 8 (r_receiver r) = Ok (d_joineui d) ->
+  unmarshal_text 3 (r_sender r) = Ok netid -> unmarshal_text 8 (r_receiver r) = Ok rid ->
   get_keys cfg (d_deveui d) = Found (mkDevKeys (d_nwkkey d) (d_appkey d) (Z.of_N jn)) ->
   get_kek cfg (r_sender r) = Ok nskek -> kek_supported nskek ->
   get_aslabel cfg (d_deveui d) = Ok aslabel -> get_kek cfg aslabel = Ok askek -> kek_supported askek ->
@@ -46,18 +47,18 @@ Print Assumptions C16_join_usable.
 
 (* the hypotheses are satisfiable (parameters of joinserver_test.go, with KEKs) *)
 Example C16_join_hypotheses_satisfiable :
-  join_conformant w_cfg_kek (w_join 149) w_dev 258 w_netid w_devaddr 149 1 w_cf 65536 w_kek s_as w_kek.
+  join_conformant w_cfg_kek (w_join 149) w_dev 258 w_netid (d_joineui w_dev) w_devaddr 149 1 w_cf 65536 w_kek s_as w_kek.
 Proof. exact w_join_conformant. Qed.
 
 (* [join_conformant] / [rejoin_conformant] are exactly the hypothesis lists *)
-Theorem C16_join_conformant_is : forall cfg r d dn netid devaddr dls rxd cf jn nskek aslabel askek,
-  join_conformant cfg r d dn netid devaddr dls rxd cf jn nskek aslabel askek <->
+Theorem C16_join_conformant_is : forall cfg r d dn netid rid devaddr dls rxd cf jn nskek aslabel askek,
+  join_conformant cfg r d dn netid rid devaddr dls rxd cf jn nskek aslabel askek <->
   (wf_device d /\ dn < 65536 /\ jn < 16777216 /\
    length netid = 3%nat /\ bytes netid /\ length devaddr = 4%nat /\ bytes devaddr /\
    dls < 256 /\ rxd < 16 /\ bytes cf /\ cf_canonical cf /\
    r_mtype r = s_JoinReq /\ base_decode r = Ok tt /\
    typed_decode r = Ok (mkTReq (join_request_frame d dn) (d_deveui d) devaddr (dec_dlsettings dls) (Z.of_N rxd) cf) /\
-   unmarshal_text 3 (r_sender r) = Ok netid /\ unmarshal_text 8 (r_receiver r) = Ok (d_joineui d) /\
+   unmarshal_text 3 (r_sender r) = Ok netid /\ unmarshal_text 8 (r_receiver r) = Ok rid /\
    get_keys cfg (d_deveui d) = Found (mkDevKeys (d_nwkkey d) (d_appkey d) (Z.of_N jn)) /\
    get_kek cfg (r_sender r) = Ok nskek /\ kek_supported nskek /\
    get_aslabel cfg (d_deveui d) = Ok aslabel /\ get_kek cfg aslabel = Ok askek /\ kek_supported askek).
@@ -104,20 +105,31 @@ Theorem C16_unknown_deveui : forall cfg r t,
 Proof. exact unknown_deveui. Qed.
 Print Assumptions C16_unknown_deveui.
 
-(* every JoinAns / RejoinAns / HomeNSAns, whatever its result, mirrors sender, receiver and transaction id *)
-Theorem C16_mirror : forall cfg r st mt sd rv tx rc phy lt keys hn,
-  handle cfg (Body r) = AMsg st mt sd rv tx rc phy lt keys hn ->
-  sd = r_receiver r /\ rv = r_sender r /\ tx = r_txid r.
+(* every JoinAns / RejoinAns / HomeNSAns, whatever its result, mirrors sender, receiver and transaction id
+   of the request ([request_of b]: the request of a body whose base payload encoding/json accepts) *)
+Theorem C16_mirror : forall cfg b st mt sd rv tx rc phy lt keys hn,
+  handle cfg b = AMsg st mt sd rv tx rc phy lt keys hn ->
+  exists r, request_of b = Some r /\ sd = r_receiver r /\ rv = r_sender r /\ tx = r_txid r.
 Proof. exact mirror. Qed.
 Print Assumptions C16_mirror.
 
-(* the only other answer is the bare HTTP 400 / Other result, given exactly to bodies that are not a
-   decodable JoinReq / RejoinReq / HomeNSReq (there is no decoded sender or transaction id to mirror
-   when the JSON itself is refused; see notes/C16.md for the decodable-base case) *)
+(* a request whose base payload decodes and whose message type is served ALWAYS gets such a mirrored answer
+   message, whatever is wrong with its other members - malformed DevEUI / DevAddr / DLSettings / CFList /
+   PHYPayload text, a member of the wrong JSON kind ([BadMember]) ... (audit finding 1, repaired) *)
+Theorem C16_served_is_mirrored : forall cfg b r,
+  request_of b = Some r -> base_decode r = Ok tt ->
+  (r_mtype r = s_JoinReq \/ r_mtype r = s_RejoinReq \/ r_mtype r = s_HomeNSReq) ->
+  mirrors r (handle cfg b) \/ handle cfg b = APanic.
+Proof. exact served_is_mirrored. Qed.
+Print Assumptions C16_served_is_mirrored.
+
+(* the only other answer is the bare HTTP 400 / Other result, given exactly when there is nothing to
+   mirror or no answer type: the base payload itself is refused, or the message type is not served *)
 Theorem C16_answer_shape : forall cfg b,
   match handle cfg b with
-  | AMsg _ _ sd rv tx _ _ _ _ _ => exists r, b = Body r /\ sd = r_receiver r /\ rv = r_sender r /\ tx = r_txid r
-  | ABare st rc => st = 400 /\ rc = ROther /\ (b = BadJSON \/ exists r, b = Body r /\ undecodable r)
+  | AMsg _ _ sd rv tx _ _ _ _ _ =>
+    exists r, request_of b = Some r /\ sd = r_receiver r /\ rv = r_sender r /\ tx = r_txid r
+  | ABare st rc => st = 400 /\ rc = ROther /\ (b = BadJSON \/ exists r, request_of b = Some r /\ unanswerable r)
   | APanic => True
   end.
 Proof. exact answer_shape. Qed.
@@ -188,6 +200,13 @@ Theorem C16_rejoin_keys_refuted :
                          (k_appskey keys) = false.
 Proof. exact rejoin_keys_refuted. Qed.
 Print Assumptions C16_rejoin_keys_refuted.
+
+(* known finding C16-3: a rejoin-request answered with OptNeg UNSET (the theorem above assumes it set) gets
+   Success with a join-accept the device rejects: MIC = cmac(JSIntKey, MHDR | ...), neither the 1.0 form
+   (NwkKey) nor the 1.1 form (JoinReqType | JoinEUI | RJcount prefix) *)
+Theorem C16_rejoin_optneg0_refuted : rejoin_optneg0_rejected = true.
+Proof. exact rejoin_optneg0_refuted. Qed.
+Print Assumptions C16_rejoin_optneg0_refuted.
 
 (* the model reproduces the four session keys joinserver_test.go pins for "valid rejoin-request type 0":
    the finding cannot be repaired without editing the test-suite *)
